@@ -21,6 +21,14 @@ def docs_of(filt, key):
     return _docs[filt]
 
 
+def tool_hash():
+    import hashlib, glob
+    h = hashlib.md5()
+    for f in [os.path.abspath(__file__), os.path.join(HERE, "sites.json")] + sorted(glob.glob(os.path.join(HERE, "sites.d", "*.json"))):
+        h.update(open(f, "rb").read())
+    return h.hexdigest()[:12]
+
+
 def ids(n):
     return {x.get("id") for x in T.walk(n) if isinstance(x, dict) and x.get("id")}
 
@@ -106,7 +114,7 @@ def main():
     summ = {"functions_with_sites": len(out), "decisions": tot_d, "decisions_regenerated": cov_d,
             "assignments": tot_a, "assignments_regenerated": cov_a}
     os.makedirs(T.BUILD, exist_ok=True)
-    json.dump({"repo_hash": key, "summary": summ, "functions": out},
+    json.dump({"repo_hash": key, "tool_hash": tool_hash(), "summary": summ, "functions": out},
               open(os.path.join(T.BUILD, "site_coverage.json"), "w"), indent=1)
     print(json.dumps(summ))
     if "-v" in sys.argv:
